@@ -1391,7 +1391,9 @@ func (f *Flooder) verifySleepCommand(cmd *protocol.SleepCommand) error {
 	if timeDiff < 0 {
 		timeDiff = -timeDiff
 	}
-	if timeDiff > f.timestampWindow {
+	// time.Since saturates at the minimum Duration for timestamps more than
+	// ~292 years ahead; negating that value overflows and stays negative.
+	if timeDiff < 0 || timeDiff > f.timestampWindow {
 		return fmt.Errorf("timestamp outside validity window (%v old, max %v)", timeDiff, f.timestampWindow)
 	}
 
@@ -1422,7 +1424,9 @@ func (f *Flooder) verifyWakeCommand(cmd *protocol.WakeCommand) error {
 	if timeDiff < 0 {
 		timeDiff = -timeDiff
 	}
-	if timeDiff > f.timestampWindow {
+	// time.Since saturates at the minimum Duration for timestamps more than
+	// ~292 years ahead; negating that value overflows and stays negative.
+	if timeDiff < 0 || timeDiff > f.timestampWindow {
 		return fmt.Errorf("timestamp outside validity window (%v old, max %v)", timeDiff, f.timestampWindow)
 	}
 
